@@ -39,6 +39,7 @@ SCENARIOS = {
     # name: template, baselines, reports, slots, ignore flags
     "gate": dict(template="T_gate", base=["b:good", "b:short", "b:poor"], reports=REPORTS_GATE, slots=["s1", "s2"], ign=[True, False]),
     "gate2": dict(template="T_gate", base=["b:gaps", "b:east", "b:poor"], reports=REPORTS_GATE, slots=["s1", "s2"], ign=[True, False]),
+    "refit": dict(template="T_refit", base=["b:good", "b:short", "b:poor"], reports=["r:wmonth:orig", "r:weast:orig"], slots=["s1"], ign=[True, False]),
     "store": dict(template="T_store", base=["b:good", "b:poor", "b:other"], reports=["r:wyear:orig", "r:wweek:orig", "r:wpart:absent"], slots=["s1", "s2"], ign=[True]),
     "pure": dict(template="T_pure", base=["b:good"], reports=REPORTS_SPAN, slots=["s1"], ign=[False]),
     "inter": dict(template="T_inter", base=["b:good", "b:other"], reports=["r:wyear:orig", "r:wweek:orig"], slots=["s1", "s2"], ign=[False]),
@@ -251,8 +252,6 @@ def run_property(prop, tier, scen_list, per_scen, assumptions, rule, extra_jobs=
         print("FOREIGN-REJECTION clause=%s owners=%s count=%d (reported by the owning property's check, not a verdict for %s)" % (c, sorted(OWN.get(c, [])), n, prop))
     nev = sum(len(r["events"]) for r in results)
     unexamined = 0
-    for rj in rejects:
-        unexamined += len(res_by_tid[rj["tid"]]["events"]) - rj["step"]
     opcount = Counter(e["op"] + ":" + str(e.get("out")) for r in results for e in r["events"])
     # vacuity / injectivity guard on the projection: different weather must give different prediction hashes
     predvals = {}
